@@ -644,13 +644,21 @@ pub fn search<H: Harness>(h: &H, opts: &Opts, wrap: &(dyn Fn(&mut (dyn FnMut() +
 
     // violations: group by (class, site), lowest case index first
     let known = known_findings(&opts.known_findings, h.property());
-    let mut seen: HashSet<(String, String)> = HashSet::new();
+    // (class, site) -> (attempts, confirmed): if a replay does not reproduce in a fresh process,
+    // later cases of the same group are tried (up to 4) before settling for an unconfirmed one
+    let mut seen: std::collections::HashMap<(String, String), (u32, bool)> = std::collections::HashMap::new();
     let mut new_violations = 0u64;
     let mut known_hits: Vec<String> = Vec::new();
     let mut replay_files: Vec<String> = Vec::new();
     for (idx, v) in &agg.violations {
-        if !seen.insert((v.class.clone(), v.site.clone())) {
+        let key = (v.class.clone(), v.site.clone());
+        let (attempts, was_confirmed) = seen.get(&key).cloned().unwrap_or((0, false));
+        if attempts > 0 && (was_confirmed || attempts >= 4) {
             continue;
+        }
+        seen.insert(key.clone(), (attempts + 1, false));
+        if attempts > 0 {
+            println!("  (replay of the previous {}|{} case did not reproduce in a fresh process; trying case {})", v.class, v.site, idx);
         }
         if let Some(f) = known.iter().find(|f| matches_finding(f, h.name(), v)) {
             let what = f.get("what").and_then(|w| w.as_str()).unwrap_or("");
@@ -663,10 +671,14 @@ pub fn search<H: Harness>(h: &H, opts: &Opts, wrap: &(dyn Fn(&mut (dyn FnMut() +
                 what
             );
             known_hits.push(format!("{}|{}", v.class, v.site));
+            seen.insert(key.clone(), (attempts + 1, true));
             continue;
         }
-        new_violations += 1;
+        if attempts == 0 {
+            new_violations += 1;
+        }
         if new_violations > 5 {
+            seen.insert(key.clone(), (4, false));
             continue;
         }
         let case_seed = derive(opts.seed, h.name(), *idx);
@@ -718,6 +730,48 @@ pub fn search<H: Harness>(h: &H, opts: &Opts, wrap: &(dyn Fn(&mut (dyn FnMut() +
             }
             Err(_) => false,
         };
+        // The minimiser ran inside this (long-lived) process. If the code under test leaks state
+        // between executions, the minimised case may only fail here. Fall back to the original
+        // case: if THAT reproduces in a fresh process, persist it instead (exact but not minimal).
+        let mut confirmed = confirmed;
+        let mut fallback_note = "";
+        if !confirmed {
+            let (ov, orec) = exec_case(h, &case, true);
+            if let Some(ov) = ov {
+                let opath = opts.replay_dir.join(format!("{}-{}-{:016x}-unminimised.json", h.property(), h.name(), orec.digest.0));
+                let odoc = json!({
+                    "property": h.property(), "check": h.name(), "engine": h.engine(), "verif_seed": opts.seed, "tier": opts.tier.as_str(),
+                    "case_index": idx, "case_seed": case_seed, "minimise_execs": 0, "violation": ov,
+                    "digest": format!("{:016x}", orec.digest.0), "case": serde_json::to_value(&case).unwrap(),
+                    "note": "the minimised case did not reproduce in a fresh process (state leaking between executions?); this is the case as generated",
+                    "events": orec.events.clone().unwrap_or_default(),
+                });
+                if std::fs::write(&opath, serde_json::to_string_pretty(&odoc).unwrap()).is_ok() {
+                    let mut cmd = std::process::Command::new(&opts.reexec[0]);
+                    cmd.args(&opts.reexec[1..]);
+                    cmd.arg(h.name()).arg("--replay").arg(&opath).arg("--confirm");
+                    let want = format!("REPLAY-RESULT class={} site={} digest={:016x}", ov.class, ov.site, orec.digest.0);
+                    let ok = cmd.output().map(|o| String::from_utf8_lossy(&o.stdout).lines().any(|l| l.trim() == want)).unwrap_or(false);
+                    if ok {
+                        confirmed = true;
+                        fallback_note = " (unminimised case; the minimised one only failed inside the search process)";
+                        let _ = std::fs::remove_file(&path);
+                        println!(
+                            "violation check={} case_index={} class={} site={} replay_confirmed_in_fresh_process=true{}",
+                            h.name(), idx, ov.class, ov.site, fallback_note
+                        );
+                        println!("  detail: {}", ov.detail);
+                        println!("VIOLATION property={} replay={}", h.property(), opath.display());
+                        replay_files.push(opath.display().to_string());
+                        seen.insert(key.clone(), (attempts + 1, true));
+                        continue;
+                    } else {
+                        let _ = std::fs::remove_file(&opath);
+                    }
+                }
+            }
+        }
+        let _ = fallback_note;
         println!(
             "violation check={} case_index={} class={} site={} replay_confirmed_in_fresh_process={}",
             h.name(),
@@ -729,6 +783,7 @@ pub fn search<H: Harness>(h: &H, opts: &Opts, wrap: &(dyn Fn(&mut (dyn FnMut() +
         println!("  detail: {}", final_v.detail);
         println!("VIOLATION property={} replay={}", h.property(), path.display());
         replay_files.push(path.display().to_string());
+        seen.insert(key.clone(), (attempts + 1, confirmed));
     }
 
     let wall = start.elapsed().as_secs_f64();
